@@ -29,6 +29,9 @@ why the existing tests cannot settle it: {p['why_tests_cant']}
 
 anchors (where the mechanism lives): {json.dumps(p['anchors'], indent=1)}
 
+NEVER use `git stash` (the stash is shared by all worktrees of this repository and other agents work in
+sibling worktrees): to test on the clean tree use `git diff > _out/wip.diff; git checkout -- .; …; git apply _out/wip.diff`.
+
 ## What to produce
 
 TWO different changes (different mechanisms / different code sites) to the library source
